@@ -14,7 +14,7 @@ CHECKS = {
   note="Ring at 8/64 segments per edge stands for the true boundary.", ref="DESIGN.md §6 C02"),
  "C03": dict(
   technique="along-edge beyond-edge probes, coverage-directed boundary anchors; property-based testing: complete per-level manifold certificate (directed-edge matching, Euler characteristic, area sum) for res<=5/7 plus Hypothesis-sampled edge-neighbour checks to res 29",
-  text="For each level up to 5 (quick) / 7 (thorough) all rings are collected and certified as a closed 2-manifold partition (each directed edge once, its reverse once, V-E+F=2, areas sum to 4pi). Beyond that, generated cells (poles, face edges/vertices, antimeridian, structured ids) have all five edges checked against the lonlat_to_cell-discovered neighbour, vertex for vertex at 4 segments.",
+  text="For each level up to 5 (quick) / 7 (thorough) all rings are collected and certified as a closed 2-manifold partition (each directed edge once, its reverse once, V-E+F=2, areas sum to 4pi). Beyond that, generated cells (poles, face edges/vertices, antimeridian, structured ids) have all five edges checked against the lonlat_to_cell-discovered neighbour, vertex for vertex at 4 segments. Corner sweep: points 0.1-0.2 % inside every vertex of every cell of res 8 (all 983,040 thorough; every 8th quick) must come back in a cell containing them.",
   note="Partition is certified only for res<=7; sampled beyond. Vertex coincidence within 1e-6 cell widths, edge points within 1e-4 + float floor.", ref="DESIGN.md §6 C03"),
  "C04": dict(
   technique="cells straddling coverage-discovered branch boundaries of the projection code; property-based testing: enumeration of all cells res<=3/5 plus Hypothesis cells to res 29; independent spherical area (two formulas) with Richardson extrapolation over the segment count and closed-form authalic latitude",
@@ -43,7 +43,7 @@ CHECKS = {
  "C10": dict(
   technique="contiguous descendant slices; property-based testing: Hypothesis lists of cells with repeats and mixed resolutions (+ atheris), block-wise differential against the reference descendants, error-class generation",
   text="uncompact output is compared block by block (input order, multiplicity) with the reference descendants; length, resolution, parent mapping and argument immutability are asserted; inputs containing a finer cell at any position must raise.",
-  note="Expansion bounded to 4^7 per case.", ref="DESIGN.md §6 C10"),
+  note="Expansion bounded to 4^7 per case, plus a stage of 65,000-400,000-cell outputs.", ref="DESIGN.md §6 C10"),
  "C11": dict(
   technique="coverage-directed boundary anchors; property-based testing: Hypothesis points (as C01) and cells (enumerated res 2..4/6, generated to res 29); independent great-circle distance oracle against the property's bounds",
   text="Point-to-cell-centre distance <= 1.0 cell widths for generated points incl. poles/frame points/res 22-29; corner distances and separations for all cells of the enumerated levels and generated cells elsewhere.",
@@ -58,7 +58,7 @@ CHECKS = {
   note="Inputs handed to the library as (theta, phi) computed with atan2; sampled.", ref="DESIGN.md §6 C13"),
  "C14": dict(
   technique="polygons with a vertex on coverage-discovered branch boundaries; property-based testing: Hypothesis polygons in the face plane (classes across seams/face edge/mirror triangle/centre, sizes 1e-4..0.5); independent spherical area of the unprojected, seam-split, densified boundary with Richardson extrapolation",
-  text="Planar area times one global constant must equal the spherical area of the image to 1e-6 for generated triangles, quadrilaterals and pentagons on all 12 faces; a violation needs two agreeing estimates.",
+  text="Planar area times one global constant must equal the spherical area of the image to 1e-6 for generated triangles, quadrilaterals and pentagons on all 12 faces; a violation needs two agreeing estimates, or raw areas at 64/128/256 points per piece that fail to decay like 1/n^2.",
   note="Polygon edges are split at the published seam rays and edge line before densifying (the map is only piecewise smooth).", ref="DESIGN.md §6 C14"),
  "C15": dict(
   technique="forward/inverse call sequences on long-lived converters vs fresh ones; property-based testing: dense grid sweep (2e5/2e6 latitudes) + log-spaced approaches + Hypothesis floats; closed-form WGS84 oracle audited against 50-digit mpmath",
@@ -78,11 +78,11 @@ CHECKS = {
   note="Exhaustive for h<=8 only; the outer (v-w) side is certified on the sphere by C03.", ref="DESIGN.md §6 C18"),
  "C19": dict(
   technique="property-based testing: enumeration of every 16-bit lane value (524,288) + boundary values + Hypothesis integers + atheris; round-trip and canonical-form oracle",
-  text="hex round trip, lower-case canonical form equal to '%x', upper-case and zero-padded parsing for all lane values, single bits, 2^k+-1, valid ids and random 64-bit values.",
+  text="hex round trip, lower-case canonical form equal to '%x', upper-case, mixed-case and zero-padded parsing for all lane values, single bits, 2^k+-1, valid ids and random 64-bit values.",
   note="2^64 values are sampled; lanes enumerated with the others all-0/all-1.", ref="DESIGN.md §6 C19"),
  "C20": dict(
   technique="property-based testing by complete enumeration of the finite domain (resolutions -1..30, all pairs and triples), backed by enumeration of cell_to_children for r<=7/9",
-  text="get_num_cells vs actual enumeration (r<=7/9) and closed form beyond, sums over coarser levels, get_num_children vs len(cell_to_children) for every pair with expansion <=4^8, composition law for all triples, cell_area*count = sphere area, strictly decreasing.",
+  text="get_num_cells vs actual enumeration (r<=7/9) and closed form beyond, sums over coarser levels, get_num_children vs len(cell_to_children) for every pair with expansion <=4^8 (plus expansions of 1-6 million and one of 4^11/4^12), composition law for all triples, cell_area*count = sphere area, strictly decreasing.",
   note="Finite domain enumerated completely; enumeration-backed counts up to r=9.", ref="DESIGN.md §6 C20"),
 }
 
